@@ -61,7 +61,7 @@ pub struct Aggregate {
     pub transcripts: BTreeMap<u64, (u64, String)>,
 }
 
-const DIGEST_CAP: usize = 3_000_000;
+const DIGEST_CAP: usize = 1_000_000;
 
 impl Aggregate {
     pub fn add(&mut self, r: RunReport) {
@@ -108,7 +108,7 @@ impl Aggregate {
         self.runs += o.runs;
         self.evaluations += o.evaluations;
         for d in o.digests {
-            if self.digests.len() < DIGEST_CAP * 4 {
+            if self.digests.len() < DIGEST_CAP * 16 {
                 self.digests.insert(d);
             } else {
                 self.digest_cap_hit = true;
